@@ -93,6 +93,18 @@ register(
     "DESIGN.md §3 C07",
 )
 
+register(
+    "C02",
+    "bounded-exhaustive product grid over systems (regime alphabet, all rb/el/rf orderings, coupled/complex variants) x frequency sets x complex forces x all incrb forms x rf_disp_only x pre_eig x solver, against an extended-precision reference solution of the dynamic-stiffness equation; solvepsd against an independent double loop over all drm None-patterns",
+    "Every system x frequency-set x force x incrb (8 subsets, permuted spelling, deprecated integers) x rf_disp_only x "
+    "solver combination is executed; d, v, a are compared element by element with the reference solution of "
+    "(-W^2 M + iWB + K) d = F (conditioning-graded tolerance), exact zeros are demanded where the options zero a "
+    "response, and both solvers are held to the same reference; solvepsd is recomputed independently.",
+    "Trusted: numpy complex solve + 3 steps of iterative refinement in long double as reference; tolerance "
+    "200*eps*(sum|terms|)/|H| per element (diagonal) or 1e3*eps*cond(H) (coupled, x50*cond(eigvec) for the complex-mode path).",
+    "DESIGN.md §3 C02",
+)
+
 
 def build():
     checks = []
